@@ -688,6 +688,7 @@ def run(prop, tier, sd, rep, clauses, modes):
         # generated program compared with the planned one.  Where they differ, the exploration above says nothing: those
         # declarations (with each provider fallible in turn) are built and executed, and judged like the batch.
         gdecls = list(dbyid.values())
+        n_design_planned = len(gdecls)
         if quick:
             # conformance only (no exploration of the plan): a seeded sample of the declarations with 5 providers
             five = [d_ for d_ in design.enumerate_decls(5, sd, None, 0.2 if prop == 'C07' else 0.5) if len(d_['providers']) == 5]
@@ -749,7 +750,7 @@ def run(prop, tier, sd, rep, clauses, modes):
         rep.cov.update({
             'states': agg['mstates'] + agg['req_states'] + dstates + agg['wt_states'],
             'transitions': agg['mtrans'] + agg['req_states'] + dtrans + agg['wt_states'],
-            'design_level': {'declarations_planned_by_Planner_tla': len(dbyid), 'max_providers': dnmax, 'states': dstates, 'transitions': dtrans,
+            'design_level': {'declarations_planned_by_Planner_tla': n_design_planned, 'five_provider_declarations_in_conformance_sample': len(gdecls) - n_design_planned, 'max_providers': dnmax, 'states': dstates, 'transitions': dtrans,
                              'signatures': {k: len(v) for k, v in dsigs.items()},
                              'planner_conformance_checked': nchk, 'planner_conformance_differences': len(pdiff),
                              'design_declarations_generated_for_real_and_compared_with_plan': gnchk, 'design_declarations_planned_differently': len(gdiff)},
